@@ -615,6 +615,11 @@ def sym_pow(a, b):
     else:
         e = Fraction(int(b))
     if not is_sym(a):
+        if is_inf(a):
+            try:
+                return float(a) ** float(e)
+            except (OverflowError, ZeroDivisionError, ValueError):
+                return float("nan")
         fa = nice_fraction(a)
         if e.denominator == 1:
             return fa ** int(e)
